@@ -254,12 +254,12 @@ def coinbase_tx(
     """
     blocks_per_halving = 210000 if not regtest else 150
 
-    if block_height:
+    if block_height is not None:
         max_reward = int(50e8)
         halvings = block_height // blocks_per_halving
         if halvings:
             max_reward //= 2**halvings
-        if block_reward:
+        if block_reward is not None:
             assert block_reward <= max_reward, "block reward too high"
         else:
             block_reward = max_reward
